@@ -42,12 +42,15 @@ class Sched:
         self.unhandled = []      # loop exception-handler reports
         self.on_quiescent = None  # optional hook(sched) called at every quiescence
         self.finish_when = None  # optional predicate: stop only when it holds (default: main done)
+        self.closing = False     # set by close(): gates created from then on are open (nothing can hang)
         self.loop.set_exception_handler(lambda loop, ctx: self.unhandled.append(
             str(ctx.get("message")) + ": " + repr(ctx.get("exception"))))
 
     # ---- gates -----------------------------------------------------------------------------
     def gate(self, label):
         fut = self.loop.create_future()
+        if self.closing:
+            fut.set_result(None)
         g = [label, fut]
         self.gates.append(g)
         self._open.append(g)
@@ -151,6 +154,7 @@ class Sched:
         return [t for t in asyncio.all_tasks(self.loop) if not t.done()]
 
     def close(self):
+        self.closing = True
         try:
             for t in self.unfinished_tasks():
                 t.cancel()
